@@ -465,6 +465,8 @@ def same(real, other):
     representable; beyond 2^53 the code's float(int) conversions of the operands round first, which can move the
     quotient by up to 3 ulps (0.5 + 1 + 1 + 0.5)"""
     if other[0] == 'fb':     # model: every float step of the code is modelled exactly -> bit for bit
+        if os.environ.get('VERIF_C20_NO_BITS'):     # development aid (dev_float_mutants.py): what the old tolerance saw
+            return real[0] == 'fl' and close(real[1], Fraction(other[1]), 3)
         return real[0] == 'fl' and struct.pack('>d', real[1]) == struct.pack('>d', other[1])
     if other[0] == 'q':
         fr = other[1]
